@@ -9,7 +9,7 @@ import (
 
 func main() {
 	if len(os.Args) < 4 {
-		fmt.Fprintln(os.Stderr, "usage: gvgen dump|ble|alias|drv <repo> <outfile>")
+		fmt.Fprintln(os.Stderr, "usage: gvgen dump|ble|alias|drv|api <repo> <outfile>")
 		os.Exit(2)
 	}
 	switch os.Args[1] {
@@ -21,6 +21,8 @@ func main() {
 		translateAlias(os.Args[2], os.Args[3])
 	case "drv":
 		translateDrv(os.Args[2], os.Args[3])
+	case "api":
+		translateApi(os.Args[2], os.Args[3])
 	default:
 		fmt.Fprintln(os.Stderr, "unknown subcommand")
 		os.Exit(2)
